@@ -126,6 +126,7 @@ func explore(args []string) {
 		scOutcomes := map[string]bool{}
 		complete := true
 		for _, cfg := range cfgs {
+			vexp.RunOnce(sc, cfg, nil, false) // warm-up: lazily initialised globals (type-keyed pools, heaps) must exist before exploring
 			ex := &vexp.Explorer{Sc: sc, Params: cfg, B: b, Shard: *shard, NShards: *nshards, Split: 2, Deadline: deadline}
 			ex.Explore()
 			st := ex.St
@@ -245,6 +246,7 @@ func selftest(args []string) {
 		}
 		return 0
 	}
+	vexp.RunOnce(sc, cfg, nil, false) // warm-up (see explore)
 	for k, policy := range []func(int, vsched.PointRec) int{nil, deep} {
 		_ = k
 		x := vexp.RunPolicy(sc, cfg, nil, policy, true)
